@@ -17,7 +17,8 @@ from .simfs import RealFS, SimFS
 from .world import World, resolve
 
 
-USER_ACTIONS = ("update", "scribble", "new_coords", "new_shell", "new_container", "write_file", "new_mole", "new_iodata")
+USER_ACTIONS = ("update", "scribble", "new_coords", "new_shell", "new_container", "write_file", "new_mole", "new_iodata",
+                "new_instance")
 EVENT_BUDGET = 600000  # traced line events per run after which faults are no longer placed (deterministic)
 
 
@@ -121,9 +122,32 @@ class Run:
                             + _pool_diff(pre_pool, post_pool))
         return out, value
 
-    def _o2(self, bound, out, ref, what):
+    @staticmethod
+    def _ambient_exc(o):
+        """Exception that exists only because the *user* asked numpy / scipy.special / warnings to raise."""
+        return o[0] == "raise" and (o[1] in ("FloatingPointError", "SpecialFunctionError") or o[1].endswith("Warning"))
+
+    def _tolerated_under_hostile_state(self, out, ref, env):
+        """Under hostile ambient state a call may raise - and whether a floating-point event occurs at all is
+        an implementation detail (a correct memo avoids recomputation and with it the event).  Two outcomes
+        that differ only in that one (or both) is such an ambient-induced exception are not compared; two
+        returned values always are."""
+        if not env:
+            return False
+        if out[0] == "ok" and ref[0] == "ok":
+            return False
+        if out[0] == "raise" and ref[0] == "raise" and out[1] == ref[1]:
+            return False
+        if self._ambient_exc(out) or self._ambient_exc(ref):
+            self.bump(self.stats, "o2_ambient_induced_divergence_tolerated")
+            return True
+        return False
+
+    def _o2(self, bound, out, ref, what, env=None):
         if ref[0] == "harness":
             raise HarnessError("reference: " + str(ref[1]))
+        if self._tolerated_under_hostile_state(out, ref, env):
+            return
         try:
             compare_outcomes(out, ref, self.stats)
         except Mismatch as m:
@@ -142,6 +166,8 @@ class Run:
         ref = self.pz.eval(env)
         if ref[0] == "harness":
             raise HarnessError("pristine reference: " + str(ref[1]))
+        if self._tolerated_under_hostile_state(out, ref, env):
+            return
         try:
             compare_outcomes(out, ref, self.stats)
         except Mismatch as m:
@@ -314,7 +340,7 @@ class Run:
 
             dry = Tracer(self.api.pkgdir, target=None, sampler=sampler, cheap=cheap_ambient)
             out, value = self._checked_call(bound, env, pre_args, pre_pool, tracer=dry, what="call")
-            self._o2(bound, out, ref, "call (traced, no fault)")
+            self._o2(bound, out, ref, "call (traced, no fault)", env)
             self._o2_pristine(bound, out, env, "call")
             self._o5(bound, out, value, "call", env)
             entry["dry"] = outcome_digest(out)
@@ -341,7 +367,7 @@ class Run:
                 else:
                     if ft.fired:
                         self.bump(self.stats, "probe_fault_swallowed_by_library")
-                    self._o2(bound, fout, ref, "call with injected fault that did not propagate")
+                    self._o2(bound, fout, ref, "call with injected fault that did not propagate", env)
                 entry["fault"] = [fired_site, outcome_class(fout)]
             # O3: recovery under default ambient state
             ref0 = self.zy.eval(None) if env else ref
@@ -360,9 +386,9 @@ class Run:
                 self.bump(self.fired, "fs_open_error" if fault["which"].startswith("open") else "fs_read_error")
                 if not (fout[0] == "raise" and fout[1] in ("OSError", "PermissionError")):
                     self.bump(self.stats, "probe_fault_swallowed_by_library")
-                    self._o2(bound, fout, ref, "call with injected I/O fault that did not propagate")
+                    self._o2(bound, fout, ref, "call with injected I/O fault that did not propagate", env)
             else:
-                self._o2(bound, fout, ref, "call")
+                self._o2(bound, fout, ref, "call", env)
             if self.fs.open_handles != 0 and self.fs.seam:
                 self.bump(self.stats, "probe_file_handle_left_open")
                 self.fs.open_handles = 0
@@ -373,7 +399,7 @@ class Run:
             self._o5(bound, out, value, "call after I/O fault")
         else:
             out, value = self._checked_call(bound, env, pre_args, pre_pool)
-            self._o2(bound, out, ref, "call")
+            self._o2(bound, out, ref, "call", env)
             self._o2_pristine(bound, out, env, "call")
             self._o5(bound, out, value, "call", env)
             if env and out[0] == "raise":
@@ -390,6 +416,19 @@ class Run:
                     out, value = rout, rvalue
         if op.get("invalid") and out[0] == "raise":
             self.bump(self.fired, "invalid_args")
+        twin = getattr(bound, "twin_call", None)
+        if twin is not None and out[0] == "ok" and not env:
+            with Ambient(None):
+                try:
+                    tout = outcome_ok(twin())
+                except Exception as exc:  # noqa: BLE001
+                    tout = outcome_raise(exc)
+            try:
+                compare_outcomes(out, tout, self.stats)
+            except Mismatch as m:
+                raise Violation(["C19"], "O6", bound.label,
+                                f"a retained instance and an instance built now from the same basis disagree: {m}")
+            self.bump(self.stats, "o6_retained_instance_comparisons")
         entry["out"] = outcome_digest(out)
         entry["cls"] = outcome_class(out)
         entry["kinds"] = kinds
